@@ -88,6 +88,9 @@ def mysqlInfix : Sym → Option (Nat × Nat)
   | .between | .notBetween => some (55, 60)
   | .plus | .minus => some (90, 91)
   | .star | .slash | .percent => some (100, 101)
+  -- `||` as string concatenation (sql_mode PIPES_AS_CONCAT; otherwise `||` is OR): between `^`
+  -- and the unary operators.  The MySQL dialect never emits it (it renders `concat(…)`).
+  | .concat => some (110, 111)
   | .collate => some (140, 141)
   | .comma | .as_ | .when_ | .then_ | .else_ => sepBp
   | _ => none
